@@ -18,6 +18,7 @@ CMDS = ['list', 'restore-list', 'restore-each', 'rm', 'empty-days', 'empty']
 def config(tier):
     return {
         'level': 'exploration',
+        'cold_sample': 2 if tier == 'quick' else 15,
         'cases': 1600 if tier == 'quick' else 40000,
         'budget_s': 55 if tier == 'quick' else 560,
         'floors': {'cases': 150, 'differentials': 150, 'g_entries_compared': 400,
@@ -33,13 +34,25 @@ def config(tier):
     }
 
 
-def malformed_nodes(rng, t, kind, j, index):
+def malformed_nodes(rng, t, kind, j, index, same_as=None):
     base = t['rel']
     nm = 'm%d' % j
     ip = '%s/info/%s.trashinfo' % (base, nm)
     pp = '%s/files/%s' % (base, nm)
     pay = {'p': pp, 't': 'f', 'c': 'malformed-neighbour payload %d' % j}
-    good = '[Trash Info]\nPath=elsewhere/m%d\nDeletionDate=2003-03-03T03:03:03\n' % j
+    pathv = 'elsewhere/m%d' % j
+    if same_as is not None:
+        # the malformed neighbour claims the SAME original location as a
+        # well-formed entry of this trash dir
+        pathv = same_as
+    good = '[Trash Info]\nPath=%s\nDeletionDate=2003-03-03T03:03:03\n' % pathv
+    if same_as is not None and kind in ('no-date', 'invalid-date'):
+        if kind == 'no-date':
+            return [{'p': ip, 't': 'f', 'c': '[Trash Info]\nPath=%s\n' % pathv,
+                     'sub': True}, pay]
+        return [{'p': ip, 't': 'f', 'sub': True,
+                 'c': '[Trash Info]\nPath=%s\nDeletionDate=%s\n' % (
+                     pathv, rng.choice(['yesterday', '2003-13-03T03:03:03', '']))}, pay]
     if kind == 'non-trashinfo-file':
         return [{'p': base + '/info/README-%d.txt' % j, 't': 'f', 'c': 'hi'}]
     if kind == 'non-trashinfo-dir':
@@ -93,8 +106,16 @@ def gen_case(rng, index, tier):
     for j in range(rng.randint(1, 4)):
         t = rng.choice([t for t in trashes])
         kind = rng.choice(MKINDS)
-        L.add(malformed_nodes(rng, t, kind, j, index))
-        mk.append(kind)
+        same = None
+        mine = [e for e in entries if e['trash'] == t['rel']]
+        if kind in ('no-date', 'invalid-date') and mine and rng.random() < 0.5:
+            g = rng.choice(mine)
+            same = trashgen.path_value(g['loc'], g['volume'], g['home'])
+            kind_l = kind + '-same-path'
+        else:
+            kind_l = kind
+        L.add(malformed_nodes(rng, t, kind, j, index, same_as=same))
+        mk.append(kind_l)
     case = L.desc()
     case['nodes_g'] = base_nodes
     case['entries'] = entries
@@ -121,21 +142,25 @@ def observe(case, desc, with_m):
     with world.World(desc) as w:
         R = w.R
         gpaths = dict((w.abs(e['loc']), i) for i, e in enumerate(ents))
+        gdate = dict((i, e['date'].replace('T', ' ')) for i, e in enumerate(ents))
         s0 = w.snapshot()
         if cmd == 'list':
             r = run.run(w, 'list', [], stdin=b'', plan=plan, env=env)
             rows = trashio.parse_list_output(r.outtext())
-            res['g_lines'] = sorted((d, gpaths[p]) for d, p in rows if p in gpaths)
+            res['g_lines'] = sorted((d, gpaths[p]) for d, p in rows
+                                    if p in gpaths and d == gdate[gpaths[p]])
         elif cmd in ('restore-list', 'restore-each'):
             args = ['--sort', case['sort']] if case['sort'] else []
             r = run.run(w, 'restore', args, stdin=b'', cwd=w.R, plan=plan, env=env)
             lst = trashio.parse_restore_listing(r.outtext())
-            res['g_listed'] = sorted((d, gpaths[p]) for i, d, p in lst if p in gpaths)
+            res['g_listed'] = sorted((d, gpaths[p]) for i, d, p in lst
+                                     if p in gpaths and d == gdate[gpaths[p]])
             if cmd == 'restore-each':
                 ok = []
                 for gi, e in enumerate(ents):
                     lst = trashio.parse_restore_listing(r.outtext())
-                    idx = [i for i, d, p in lst if p == w.abs(e['loc'])]
+                    idx = [i for i, d, p in lst if p == w.abs(e['loc']) and
+                           d == gdate[gi]]
                     if len(idx) != 1:
                         ok.append((gi, 'not-listed'))
                         continue
